@@ -129,6 +129,10 @@ def stepAction (env : Env) (a : Action) (tokens : Array Nat) : M (String × Arra
     let c ← resolveOpnd [] c
     let dep ← expertAddDependency env fuelDefault n c cb
     pure (s!"ok d{dep}", tokens)
+  | .arm k => do
+    modify fun s => { s with panicCountdown := some k }
+    pure ("ok", tokens)
+  | .setMaxHeight k => do setMaxHeightAllowed k; pure ("ok", tokens)
   | .stabilise => do stabilise env fuelDefault; pure ("ok", tokens)
   | .isStable => do pure (s!"ok {(← get).isStable}", tokens)
   | .stats => pure ("ok", tokens)
